@@ -1050,6 +1050,8 @@ class Interp:
                 if isinstance(op, ast.NotEq):
                     return True
                 raise ProgExc(TypeError(f"comparison between {type(a).__name__} and {type(b).__name__}"))
+            if _is_nan(a) or _is_nan(b):
+                return isinstance(op, ast.NotEq)        # every comparison with NaN is False, except !=
             inf_r = _inf_compare(op, a, b)
             if inf_r is not None:
                 return inf_r
@@ -1365,6 +1367,15 @@ def _infinite_sign(v):
     except Exception:
         pass
     return 0
+
+
+def _is_nan(v):
+    if isinstance(v, SV):
+        return False
+    try:
+        return v != v
+    except Exception:
+        return False
 
 
 def _inf_compare(op, a, b):
